@@ -49,22 +49,39 @@ IsExecutor(s, a) == \E i \in 1..Len(s.params.execs) : s.params.execs[i] = a
 (*   "none"        no payload                                                *)
 (*   "undecodable" bytes that are not a transaction                          *)
 (*   "badSig"      a transaction whose signature does not verify             *)
-(*   "msgs"        a well-signed transaction of h.signer carrying bank sends *)
-(*                 h.msgs = << [to, denom, amt] ... >>; a send to "panic"    *)
-(*                 makes the bank message handler panic                      *)
+(*   "msgs"        a well-signed transaction of h.signer carrying messages   *)
+(*                 h.msgs = << m ... >>, each m one of                       *)
+(*                   [kind |-> "send", to, denom, amt]      bank send; a send *)
+(*                        to "panic" makes the bank handler panic            *)
+(*                   [kind |-> "withdraw", to, denom, amt]  the signer's own  *)
+(*                        MsgInitiateTokenWithdrawal back to the L1          *)
 (* The hook runs with min(remaining gas, params.hookGas) where hookGas is    *)
 (* one of "ample", "tiny" (below the cost of signature verification), "zero" *)
+(* Its messages run in order on a branch of the state that is dropped as a   *)
+(* whole when one of them fails; when all succeed the branch is committed    *)
+(* and every withdrawal it made is announced like any other withdrawal.      *)
 HookRuns(s, h) == h.kind # "none"
 HookAnteOK(s, h) == h.kind = "msgs" /\ s.params.hookGas = "ample"
-RECURSIVE ApplySends(_, _, _, _)
-ApplySends(bal, signer, msgs, i) ==
-  \* returns [ok, bal]; sends are applied in order on a branch that is dropped when one fails
-  IF i > Len(msgs) THEN [ok |-> TRUE, bal |-> bal]
+SendOK(bal, signer, m) ==
+  ~(m.to = "panic" \/ m.to \in Blocked \/ ~ValidAddr(m.to) \/ m.amt <= 0
+    \/ ~(Has(bal, signer) /\ Has(bal[signer], m.denom) /\ Has(bal, m.to)) \/ bal[signer][m.denom] < m.amt)
+WithdrawOK(bal, pairs, cap, signer, m) ==
+  /\ ValidAddr(signer) /\ NonEmpty(m.to) /\ ValidDenom(m.denom) /\ m.amt > 0 /\ m.amt <= cap
+  /\ Has(pairs, m.denom) /\ Has(bal, signer) /\ Has(bal[signer], m.denom) /\ bal[signer][m.denom] >= m.amt
+RECURSIVE ApplyHook(_, _, _, _, _, _)
+ApplyHook(acc, pairs, cap, signer, msgs, i) ==
+  \* acc = [ok, bal, supply, seqL2, wds]
+  IF i > Len(msgs) THEN acc
   ELSE LET m == msgs[i] IN
-       IF m.to = "panic" \/ m.to \in Blocked \/ ~ValidAddr(m.to) \/ m.amt <= 0
-          \/ ~(Has(bal, signer) /\ Has(bal[signer], m.denom) /\ Has(bal, m.to)) \/ bal[signer][m.denom] < m.amt
-       THEN [ok |-> FALSE, bal |-> bal]
-       ELSE ApplySends(MoveB(bal, signer, m.to, m.denom, m.amt), signer, msgs, i + 1)
+       IF m.kind = "send"
+       THEN IF ~SendOK(acc.bal, signer, m) THEN [acc EXCEPT !.ok = FALSE]
+            ELSE ApplyHook([acc EXCEPT !.bal = MoveB(@, signer, m.to, m.denom, m.amt)], pairs, cap, signer, msgs, i + 1)
+       ELSE IF ~WithdrawOK(acc.bal, pairs, cap, signer, m) THEN [acc EXCEPT !.ok = FALSE]
+            ELSE ApplyHook([acc EXCEPT !.bal = Debit(@, signer, m.denom, m.amt),
+                                       !.supply = [@ EXCEPT ![m.denom] = @ - m.amt],
+                                       !.seqL2 = @ + 1,
+                                       !.wds = Append(@, [seq |-> acc.seqL2, from |-> signer, to |-> m.to, denom |-> m.denom, base |-> pairs[m.denom], amt |-> m.amt])],
+                           pairs, cap, signer, msgs, i + 1)
 
 ----------------------------------------------------------------------------
 (* FinalizeTokenDeposit                                                      *)
@@ -80,24 +97,30 @@ DepositOutcome(s, e) ==
   LET toOK     == ValidAddr(e.to)
       credited == toOK /\ (e.amt = 0 \/ (e.to \notin Blocked /\ e.fault = "none"))
       bal1     == IF credited THEN Credit(s.bal, e.to, e.denom, e.amt) ELSE s.bal
+      sup1     == IF credited /\ e.amt > 0 THEN [s.supply EXCEPT ![e.denom] = @ + e.amt] ELSE s.supply
+      pairs1   == IF Has(s.pairs, e.denom) THEN s.pairs ELSE Put(s.pairs, e.denom, e.base)     \* the pair is registered before the hook runs
       runs     == credited /\ HookRuns(s, e.hook)
       anteOK   == runs /\ HookAnteOK(s, e.hook)
-      sends    == IF anteOK THEN ApplySends(bal1, e.hook.signer, e.hook.msgs, 1) ELSE [ok |-> FALSE, bal |-> bal1]
-      hookOK   == ~runs \/ (anteOK /\ sends.ok)
+      acc0     == [ok |-> TRUE, bal |-> bal1, supply |-> sup1, seqL2 |-> s.seqL2, wds |-> << >>]
+      hook     == IF anteOK THEN ApplyHook(acc0, pairs1, s.cap, e.hook.signer, e.hook.msgs, 1) ELSE [acc0 EXCEPT !.ok = FALSE]
+      hookOK   == ~runs \/ (anteOK /\ hook.ok)
       refund   == ~credited \/ ~hookOK
   IN [credited |-> credited, runs |-> runs, anteOK |-> anteOK, hookOK |-> hookOK, refund |-> refund,
-      bal |-> IF refund THEN s.bal ELSE sends.bal]
+      bal    |-> IF refund THEN s.bal ELSE IF anteOK THEN hook.bal ELSE bal1,
+      supply |-> IF refund THEN s.supply ELSE IF anteOK THEN hook.supply ELSE sup1,
+      seqL2  |-> IF refund THEN s.seqL2 + 1 ELSE IF anteOK THEN hook.seqL2 ELSE s.seqL2,
+      hookWds |-> IF ~refund /\ anteOK THEN hook.wds ELSE << >>]
 
 FinalizeTokenDeposit_E(s, e) ==
   IF e.seq < s.seqL1 THEN s
   ELSE LET o == DepositOutcome(s, e) IN
     [s EXCEPT !.seqL1   = @ + 1,
               !.bal     = o.bal,
-              !.supply  = IF o.refund \/ e.amt = 0 THEN @ ELSE [@ EXCEPT ![e.denom] = @ + e.amt],
+              !.supply  = o.supply,
               !.pairs   = IF Has(@, e.denom) THEN @ ELSE Put(@, e.denom, e.base),
               !.meta    = IF Has(@, e.denom) THEN @ ELSE Put(@, e.denom, e.base),
               !.acctSeq = IF o.anteOK THEN [@ EXCEPT ![e.hook.signer] = @ + 1] ELSE @,
-              !.seqL2   = IF o.refund THEN @ + 1 ELSE @ ]
+              !.seqL2   = o.seqL2 ]
 FinalizeTokenDeposit_R(s, e) ==
   IF e.seq < s.seqL1 THEN [result |-> "NOOP"]
   ELSE LET o == DepositOutcome(s, e)
@@ -108,6 +131,7 @@ FinalizeTokenDeposit_R(s, e) ==
      wd |-> IF o.refund
             THEN [some |-> TRUE, seq |-> s.seqL2, from |-> e.to, to |-> e.from, denom |-> e.denom, base |-> base, amt |-> e.amt]
             ELSE [some |-> FALSE],
+     hookWds |-> o.hookWds,   \* withdrawals made by the hook's own messages, announced in order like any other withdrawal
      hookGasOK |-> TRUE]      \* the handler charges at most params.hookGas for the hook (measured differentially by the harness)
 
 ----------------------------------------------------------------------------
